@@ -23,8 +23,8 @@ Definition edge_rep (g : sgraph) (idx : list nat) (e : list Z * nat) (y : nat) :
   exists tx, 1 <= snd e /\ nth_error idx (snd e - 1) = Some tx /\
     ((fst e = [] /\ y = tx) \/ (fst e <> [] /\ ~ In y idx /\ exp_node g y (fst e) tx)).
 
-Record rep (P : Z -> Prop) (n0 : nat) (done : list d4token) (b : bstate) : Prop := {
-  rp_core : core_ok P (bs_ls b);
+Record rep (P : Z -> Prop) (st : bool) (n0 : nat) (done : list d4token) (b : bstate) : Prop := {
+  rp_core : core_ok P st (bs_ls b);
   rp_tri : ls_tri (bs_ls b) = [];
   rp_nodup : NoDup (bs_idx b);
   rp_decl : Forall2 (fun k x => sg_label (ls_g (bs_ls b)) x = Some (tid_of_kind k))
@@ -71,10 +71,10 @@ Proof.
   - now apply IH.
 Qed.
 
-Lemma idx_alive P n0 done b x : rep P n0 done b -> In x (bs_idx b) -> sg_alive (ls_g (bs_ls b)) x = true.
+Lemma idx_alive P st n0 done b x : rep P st n0 done b -> In x (bs_idx b) -> sg_alive (ls_g (bs_ls b)) x = true.
 Proof.
   intros HR Hin. apply In_nth_error in Hin. destruct Hin as [i Hi].
-  destruct (Forall2_nth_error _ _ _ _ _ (rp_decl _ _ _ _ HR) Hi) as [k [_ Hk]].
+  destruct (Forall2_nth_error _ _ _ _ _ (rp_decl _ _ _ _ _ HR) Hi) as [k [_ Hk]].
   unfold sg_alive. now rewrite Hk.
 Qed.
 
@@ -111,22 +111,26 @@ Qed.
 
 Section Parse.
 Variable rc : bool.
-Context {P : Z -> Prop}.
+Context {P : Z -> Prop} {st : bool}.
+(* the whole file: an edge line may only leave an or / and node when st is set *)
+Variable all : list d4token.
+Definition gate_from (from : Z) : Prop :=
+  exists k, nth_error (d4_decls all) (Z.to_nat from - 1) = Some k /\ (k = KOr \/ k = KAnd).
 
 (* ---------- declarations ---------- *)
-Lemma rep_decl n0 done b t k : rep P n0 done b -> d4_kind t = [k] -> d4_token_max t = 0 ->
+Lemma rep_decl n0 done b t k : rep P st n0 done b -> d4_kind t = [k] -> d4_token_max t = 0 ->
   (forall i, d4_edge_of i t = []) ->
-  rep P n0 (done ++ [t]) (decl rc (tid_of_kind k) b).
+  rep P st n0 (done ++ [t]) (decl rc (tid_of_kind k) b).
 Proof.
   intros HR Hk Hmax Hne. unfold decl.
   destruct (add_node rc (tid_of_kind k) (ls_g (bs_ls b))) as [x g'] eqn:Ha.
-  pose proof HR as [[HI Hl Hp Hinj] Htri Hnd Hdecl Hedges Hrange Htot Hfirst Hempty].
+  pose proof HR as [[HI Hl Hp Hinj Hsr] Htri Hnd Hdecl Hedges Hrange Htot Hfirst Hempty].
   pose proof (add_node_ext rc _ _ _ _ [] HI Ha) as He.
   pose proof (add_node_fresh rc _ _ _ _ HI Ha) as Hfresh.
   pose proof (add_node_label_new rc _ _ _ _ HI Ha) as Hlx.
   assert (Hxd : sg_alive (ls_g (bs_ls b)) x = false) by (unfold sg_alive; now rewrite Hfresh).
   assert (Hxn : ~ In x (bs_idx b)).
-  { intros Hin. rewrite (idx_alive _ _ _ _ _ HR Hin) in Hxd. discriminate. }
+  { intros Hin. rewrite (idx_alive _ _ _ _ _ _ HR Hin) in Hxd. discriminate. }
   constructor; unfold with_g; cbn [bs_ls bs_idx bs_occ bs_total ls_g ls_lits ls_tri].
   - constructor; cbn [ls_g ls_lits].
     + apply (add_node_Inv rc _ _ _ _ HI Ha).
@@ -137,6 +141,7 @@ Proof.
     + intros z l Hz. destruct (Nat.eq_dec z x) as [->|Hzx].
       * rewrite Hlx in Hz. destruct k; discriminate.
       * rewrite (add_node_label_old rc _ _ _ _ Ha z Hzx) in Hz. now apply (Hinj z).
+    + intros Hst. exact (add_node_srcs rc _ _ _ _ HI Ha (Hsr Hst)).
   - exact Htri.
   - apply NoDup_app_snoc; assumption.
   - rewrite d4_decls_app. unfold d4_decls at 2. cbn [flat_map]. rewrite Hk, app_nil_r.
@@ -146,7 +151,7 @@ Proof.
     rewrite Hne, !app_nil_r.
     destruct (Nat.lt_ge_cases i (length (bs_idx b))) as [Hlt|Hge].
     + rewrite nth_error_app1 in Hi by exact Hlt.
-      assert (Hza : sg_alive (ls_g (bs_ls b)) z = true) by (apply (idx_alive _ _ _ _ _ HR); now apply nth_error_In in Hi).
+      assert (Hza : sg_alive (ls_g (bs_ls b)) z = true) by (apply (idx_alive _ _ _ _ _ _ HR); now apply nth_error_In in Hi).
       rewrite (ex_out _ _ _ He z Hza) by (intros []).
       eapply Forall2_impl; [|exact (Hedges i z Hi)]. intros e y Hey.
       apply (edge_rep_ext _ _ (bs_idx b) _ [] e y He); [intros ? []| | |exact Hey].
@@ -167,9 +172,9 @@ Proof.
 Qed.
 
 (* ---------- the literal leaves of an edge ---------- *)
-Lemma get_lits_spec : forall ls s lns s', core_ok P s -> Forall P ls ->
+Lemma get_lits_spec : forall ls s lns s', core_ok P st s -> Forall P ls ->
   get_lits rc ls s = (lns, s') ->
-  core_ok P s' /\ ext (ls_g s) (ls_g s') [] /\ lit_nodes (ls_g s') ls lns /\ ls_tri s' = ls_tri s.
+  core_ok P st s' /\ ext (ls_g s) (ls_g s') [] /\ lit_nodes (ls_g s') ls lns /\ ls_tri s' = ls_tri s.
 Proof.
   induction ls as [|l r IH]; intros s lns s' Hc Hnz H; cbn [get_lits] in H.
   - injection H as <- <-. split; [exact Hc|]. split; [apply ext_refl|]. split; [constructor|reflexivity].
@@ -182,15 +187,16 @@ Proof.
     constructor; [exact (ext_label_some _ _ _ _ _ He2 Hlx)|exact Hn2].
 Qed.
 
-Lemma add_edges_to_spec an : forall bs s s', core_ok P s -> add_edges_to an bs s = Some s' ->
-  core_ok P s' /\ ext (ls_g s) (ls_g s') [an] /\ sg_out (ls_g s') an = rev bs ++ sg_out (ls_g s) an /\
+Lemma add_edges_to_spec an : forall bs s s', core_ok P st s -> (st = true -> gate_at (ls_g s) an) ->
+  add_edges_to an bs s = Some s' ->
+  core_ok P st s' /\ ext (ls_g s) (ls_g s') [an] /\ sg_out (ls_g s') an = rev bs ++ sg_out (ls_g s) an /\
   ls_tri s' = ls_tri s.
 Proof.
-  induction bs as [|b r IH]; intros s s' Hc H; cbn [add_edges_to] in H.
+  induction bs as [|b r IH]; intros s s' Hc Hg H; cbn [add_edges_to] in H.
   - injection H as <-. split; [exact Hc|]. split; [apply ext_refl|]. split; reflexivity.
   - destruct (ls_add_edge an b s) as [s1|] eqn:E1; [|discriminate].
-    destruct (ls_add_edge_core an b s s1 [an] Hc (or_introl eq_refl) E1) as [Hc1 [He1 [Ht1 [_ Ho1]]]].
-    destruct (IH s1 s' Hc1 H) as [Hc' [He' [Ho' Ht']]].
+    destruct (ls_add_edge_core an b s s1 [an] Hc (or_introl eq_refl) Hg E1) as [Hc1 [He1 [Ht1 [_ Ho1]]]].
+    destruct (IH s1 s' Hc1 (fun Hst => gate_at_ext _ _ _ _ He1 (Hg Hst)) H) as [Hc' [He' [Ho' Ht']]].
     split; [exact Hc'|]. split; [exact (ext_trans _ _ _ _ He1 He')|]. split; [|congruence].
     rewrite Ho', Ho1. cbn [rev]. now rewrite <- app_assoc.
 Qed.
@@ -199,14 +205,14 @@ Lemma remove1_head c l : remove1 c (c :: l) = l.
 Proof. cbn [remove1]. now rewrite Nat.eqb_refl. Qed.
 
 (* resolve_weighted_edge after the plain edge a -> c was added *)
-Lemma resolve_spec a c fs s s1 s2 : core_ok P s -> Forall P fs ->
+Lemma resolve_spec a c fs s s1 s2 : core_ok P st s -> Forall P fs -> (st = true -> gate_at (ls_g s) a) ->
   ls_add_edge a c s = Some s1 -> resolve_weighted_edge rc a c fs s1 = Some s2 ->
-  core_ok P s2 /\ ls_tri s2 = ls_tri s /\ ext (ls_g s) (ls_g s2) [a] /\
+  core_ok P st s2 /\ ls_tri s2 = ls_tri s /\ ext (ls_g s) (ls_g s2) [a] /\
   exists y, sg_out (ls_g s2) a = y :: sg_out (ls_g s) a /\
     ((fs = [] /\ y = c) \/ (fs <> [] /\ sg_alive (ls_g s) y = false /\ exp_node (ls_g s2) y fs c)).
 Proof.
-  intros Hc Hnz E1 H.
-  destruct (ls_add_edge_core a c s s1 [a] Hc (or_introl eq_refl) E1) as [Hc1 [He01 [Ht1 [_ Ho1]]]].
+  intros Hc Hnz Hga E1 H.
+  destruct (ls_add_edge_core a c s s1 [a] Hc (or_introl eq_refl) Hga E1) as [Hc1 [He01 [Ht1 [_ Ho1]]]].
   assert (Hal : sg_alive (ls_g s) a = true /\ sg_alive (ls_g s) c = true).
   { unfold ls_add_edge in E1. destruct (add_edge a c (ls_g s)) as [g1|] eqn:E; [|discriminate].
     exact (add_edge_alive a c _ _ E). }
@@ -227,7 +233,7 @@ Proof.
     set (s2' := with_g s1' (remove_edge a c g2)) in H.
     destruct (ls_add_edge a an s2') as [s3|] eqn:E3; [|discriminate].
     destruct (add_edges_to an lns s3) as [s4|] eqn:E4; [|discriminate].
-    destruct Hc1' as [HI1 Hl1 Hp1 Hj1].
+    destruct Hc1' as [HI1 Hl1 Hp1 Hj1 Hsr1].
     pose proof (add_node_fresh rc _ _ _ _ HI1 Ha) as Hfresh.
     pose proof (add_node_label_new rc _ _ _ _ HI1 Ha) as Hlan.
     pose proof (add_node_no_out rc _ _ _ _ HI1 Ha) as Hoan.
@@ -237,14 +243,15 @@ Proof.
     assert (Hand : sg_alive (ls_g s) an = false).
     { destruct (sg_alive (ls_g s) an) eqn:E; [|reflexivity].
       pose proof (ext_alive _ _ _ _ He11 (ext_alive _ _ _ _ He01 E)) as E'. unfold sg_alive in E'. now rewrite Hfresh in E'. }
-    assert (Hc2' : core_ok P s2').
+    assert (Hc2' : core_ok P st s2').
     { constructor; cbn [s2' with_g ls_g ls_lits ls_tri].
       - apply remove_edge_Inv, (add_node_Inv rc _ _ _ _ HI1 Ha).
       - intros l z Hz. rewrite remove_edge_label. apply (ext_label_some _ _ _ _ _ He12). now apply Hl1.
       - intros z l Hz. rewrite remove_edge_label in Hz. destruct (Nat.eq_dec z an) as [->|Hza]; [congruence|].
         rewrite (add_node_label_old rc _ _ _ _ Ha z Hza) in Hz. now apply (Hp1 z).
       - intros z l Hz. rewrite remove_edge_label in Hz. destruct (Nat.eq_dec z an) as [->|Hza]; [congruence|].
-        rewrite (add_node_label_old rc _ _ _ _ Ha z Hza) in Hz. now apply (Hj1 z). }
+        rewrite (add_node_label_old rc _ _ _ _ Ha z Hza) in Hz. now apply (Hj1 z).
+      - intros Hst. apply remove_edge_srcs. exact (add_node_srcs rc _ _ _ _ HI1 Ha (Hsr1 Hst)). }
     assert (He22 : ext (ls_g s1') (ls_g s2') [a]).
     { apply (ext_trans _ g2); [apply (ext_weaken _ _ []); [intros ? []|exact He12]|]. apply remove_edge_ext. now left. }
     assert (Ho2a : sg_out (ls_g s2') a = sg_out (ls_g s) a).
@@ -254,9 +261,11 @@ Proof.
     assert (Ho2n : sg_out (ls_g s2') an = []).
     { cbn [s2' with_g ls_g]. rewrite remove_edge_out_other by exact Hne. exact Hoan. }
     assert (Hl2n : sg_label (ls_g s2') an = Some GAnd) by exact Hlan.
-    destruct (ls_add_edge_core a an s2' s3 [a] Hc2' (or_introl eq_refl) E3) as [Hc3 [He23 [Ht3 [_ Ho3]]]].
-    destruct (add_edges_to_spec an lns s3 s4 Hc3 E4) as [Hc4 [He34 [Ho4 Ht4]]].
-    destruct (ls_add_edge_core an c s4 s2 [an] Hc4 (or_introl eq_refl) H) as [Hc5 [He45 [Ht5 [_ Ho5]]]].
+    destruct (ls_add_edge_core a an s2' s3 [a] Hc2' (or_introl eq_refl)
+                (fun Hst => gate_at_ext _ _ _ _ He22 (gate_at_ext _ _ _ _ He11 (gate_at_ext _ _ _ _ He01 (Hga Hst)))) E3) as [Hc3 [He23 [Ht3 [_ Ho3]]]].
+    destruct (add_edges_to_spec an lns s3 s4 Hc3 (fun _ => gate_at_ext _ _ _ _ He23 (gate_and _ _ Hl2n)) E4) as [Hc4 [He34 [Ho4 Ht4]]].
+    destruct (ls_add_edge_core an c s4 s2 [an] Hc4 (or_introl eq_refl)
+                (fun _ => gate_at_ext _ _ _ _ He34 (gate_at_ext _ _ _ _ He23 (gate_and _ _ Hl2n))) H) as [Hc5 [He45 [Ht5 [_ Ho5]]]].
     pose proof (ext_trans _ _ _ _ He34 He45) as He35.
     assert (Ha2 : sg_alive (ls_g s2') a = true) by exact (ext_alive _ _ _ _ He22 Ha1).
     assert (Ha3 : sg_alive (ls_g s3) a = true) by exact (ext_alive _ _ _ _ He23 Ha2).
@@ -287,17 +296,25 @@ Proof.
 Qed.
 
 (* ---------- an edge line ---------- *)
-Lemma rep_edge n0 done b from to fs b' : rep P n0 done b -> Forall P fs ->
-  d4_line rc b (DEdge from to fs) = Some b' -> rep P n0 (done ++ [DEdge from to fs]) b'.
+Lemma rep_edge n0 done b from to fs b' : rep P st n0 done b -> Forall P fs ->
+  (exists r, d4_decls all = d4_decls done ++ r) -> (st = true -> gate_from from) ->
+  d4_line rc b (DEdge from to fs) = Some b' -> rep P st n0 (done ++ [DEdge from to fs]) b'.
 Proof.
-  intros HR Hnz H. cbn [d4_line] in H.
+  intros HR Hnz [rest Hrest] Hgf H. cbn [d4_line] in H.
   destruct (idx_get (bs_idx b) from) as [a|] eqn:Ea; [|discriminate].
   destruct (idx_get (bs_idx b) to) as [c|] eqn:Ec; [|discriminate].
   destruct (ls_add_edge a c (bs_ls b)) as [s1|] eqn:E1; [|discriminate].
   destruct (resolve_weighted_edge rc a c fs s1) as [s2|] eqn:E2; [|discriminate].
   injection H as <-.
   pose proof HR as [Hc Htri Hnd Hdecl Hedges Hrange Htot Hfirst Hempty].
-  destruct (resolve_spec a c fs (bs_ls b) s1 s2 Hc Hnz E1 E2) as [Hc2 [Ht2 [He [y [Hoa Hy]]]]].
+  assert (Hga : st = true -> gate_at (ls_g (bs_ls b)) a).
+  { intros Hst. destruct (Hgf Hst) as [k [Hk Hkg]].
+    unfold idx_get in Ea. destruct (0 <? from)%Z; [|discriminate].
+    destruct (Forall2_nth_error _ _ _ _ _ Hdecl Ea) as [k' [Hk' Hlk]].
+    rewrite Hrest, nth_error_app1 in Hk by (apply nth_error_Some; congruence).
+    assert (k' = k) by congruence. subst k'. exists (tid_of_kind k). split; [exact Hlk|].
+    destruct Hkg as [-> | ->]; reflexivity. }
+  destruct (resolve_spec a c fs (bs_ls b) s1 s2 Hc Hnz Hga E1 E2) as [Hc2 [Ht2 [He [y [Hoa Hy]]]]].
   destruct (idx_get_spec _ _ _ Ea) as [Hf0 [Hf1 Hfa]].
   destruct (idx_get_spec _ _ _ Ec) as [Ht0 [Ht1 Htc]].
   set (p := Z.to_nat from - 1) in *.
@@ -313,14 +330,14 @@ Proof.
   - rewrite d4_decls_app. unfold d4_decls at 2. cbn [flat_map d4_kind]. rewrite app_nil_r.
     eapply Forall2_impl; [|exact Hdecl]. intros k z Hz. exact (ext_label_some _ _ _ _ _ He Hz).
   - intros i x Hi. rewrite d4_edges_from_app. unfold d4_edges_from at 2. cbn [flat_map d4_edge_of]. rewrite app_nil_r.
-    assert (Hxa : sg_alive (ls_g (bs_ls b)) x = true) by (apply (idx_alive _ _ _ _ _ HR); now apply nth_error_In in Hi).
+    assert (Hxa : sg_alive (ls_g (bs_ls b)) x = true) by (apply (idx_alive _ _ _ _ _ _ HR); now apply nth_error_In in Hi).
     destruct (Nat.eq_dec i p) as [->|Hip].
     + assert (x = a) as -> by congruence.
       rewrite Hfrom, Z.eqb_refl, rev_app_distr. cbn [rev app]. rewrite Hoa.
       constructor; [|eapply Forall2_impl; [exact Htrans|exact (Hedges p a Hi)]].
       exists c. cbn [fst snd]. split; [exact Ht1|]. split; [exact Htc|].
       destruct Hy as [[-> ->]|[Hfs [Hyd Hexp]]]; [left; now split|]. right. split; [exact Hfs|]. split; [|exact Hexp].
-      intros Hin. rewrite (idx_alive _ _ _ _ _ HR Hin) in Hyd. discriminate.
+      intros Hin. rewrite (idx_alive _ _ _ _ _ _ HR Hin) in Hyd. discriminate.
     + assert (Hne : (from =? Z.of_nat (S i))%Z = false) by (apply Z.eqb_neq; lia).
       rewrite Hne, app_nil_r.
       assert (Hxne : x <> a).
@@ -338,35 +355,37 @@ Proof.
 Qed.
 
 (* ---------- the whole file ---------- *)
-Lemma rep_line n0 done b t b' : rep P n0 done b ->
-  (forall from to fs, t = DEdge from to fs -> Forall P fs) ->
-  d4_line rc b t = Some b' -> rep P n0 (done ++ [t]) b'.
+Lemma rep_line n0 done b t b' : rep P st n0 done b ->
+  (forall from to fs, t = DEdge from to fs -> Forall P fs /\ (st = true -> gate_from from)) ->
+  (exists r, d4_decls all = d4_decls done ++ r) ->
+  d4_line rc b t = Some b' -> rep P st n0 (done ++ [t]) b'.
 Proof.
-  intros HR Hnz H. destruct t as [from to fs| | | |].
-  - apply (rep_edge n0 done b from to fs b' HR (Hnz _ _ _ eq_refl) H).
+  intros HR Hnz Hpre H. destruct t as [from to fs| | | |].
+  - apply (rep_edge n0 done b from to fs b' HR (proj1 (Hnz _ _ _ eq_refl)) Hpre (proj2 (Hnz _ _ _ eq_refl)) H).
   - cbn [d4_line] in H. injection H as <-. now apply (rep_decl n0 done b DOr KOr).
   - cbn [d4_line] in H. injection H as <-. now apply (rep_decl n0 done b DAnd KAnd).
   - cbn [d4_line] in H. injection H as <-. now apply (rep_decl n0 done b DTrue KTrue).
   - cbn [d4_line] in H. injection H as <-. now apply (rep_decl n0 done b DFalse KFalse).
 Qed.
 
-Lemma rep_lines n0 : forall toks done b b', rep P n0 done b ->
-  (forall from to fs, In (DEdge from to fs) toks -> Forall P fs) ->
-  d4_lines rc b toks = Some b' -> rep P n0 (done ++ toks) b'.
+Lemma rep_lines n0 : forall toks done b b', rep P st n0 done b -> done ++ toks = all ->
+  (forall from to fs, In (DEdge from to fs) toks -> Forall P fs /\ (st = true -> gate_from from)) ->
+  d4_lines rc b toks = Some b' -> rep P st n0 (done ++ toks) b'.
 Proof.
-  induction toks as [|t r IH]; intros done b b' HR Hnz H; cbn [d4_lines] in H.
+  induction toks as [|t r IH]; intros done b b' HR Hall Hnz H; cbn [d4_lines] in H.
   - injection H as <-. now rewrite app_nil_r.
   - destruct (d4_line rc b t) as [b1|] eqn:E; [|discriminate].
-    replace (done ++ t :: r) with ((done ++ [t]) ++ r) by now rewrite <- app_assoc.
-    apply (IH (done ++ [t]) b1 b'); [|intros from to fs Hin; apply (Hnz from to fs); now right|exact H].
-    apply (rep_line n0 done b t b1 HR); [|exact E].
-    intros from to fs ->. apply (Hnz from to fs). now left.
+    replace (done ++ t :: r) with ((done ++ [t]) ++ r) in * by now rewrite <- app_assoc.
+    apply (IH (done ++ [t]) b1 b'); [|exact Hall|intros from to fs Hin; apply (Hnz from to fs); now right|exact H].
+    apply (rep_line n0 done b t b1 HR); [| |exact E].
+    + intros from to fs ->. apply (Hnz from to fs). now left.
+    + exists (d4_decls ([t] ++ r)). now rewrite <- Hall, <- app_assoc, d4_decls_app.
 Qed.
 
-Lemma rep_init n0 : rep P n0 [] (mkBS (mkLS sg_empty [] []) [] [] n0).
+Lemma rep_init n0 : rep P st n0 [] (mkBS (mkLS sg_empty [] []) [] [] n0).
 Proof.
   constructor; cbn [bs_ls bs_idx bs_total ls_g ls_lits ls_tri].
-  - constructor; cbn [ls_g ls_lits]; [apply Inv_empty|discriminate| |];
+  - constructor; cbn [ls_g ls_lits]; [apply Inv_empty|discriminate| | |intros _ a b []];
       intros z l Hz; unfold sg_label in Hz; cbn in Hz; destruct z; discriminate.
   - reflexivity.
   - constructor.
